@@ -328,8 +328,35 @@ for _k, _v in _ROUND5.items():
     if _k in TEXTS and _v.strip() not in TEXTS[_k]["text"]:
         TEXTS[_k]["text"] = TEXTS[_k]["text"].rstrip() + _v
 
+# ---- clauses added with the sixth seeding round and findings F33, F34 -------------------------------------------------
+_ROUND6 = {
+ "C01": " Round 6: target files are listed by a walk restricted to target files (TARGET-WALK-TARGETED); the exclude paths of a module read bucket are stored as given (EXCLUDES-KEPT-WHOLE); CLOSURE-ALWAYS-WALKED shared.",
+ "C02": " Round 6: the image builder takes its file lists from the sorted accessors (IMAGE-LISTS-SORTED); indexed values are returned in request order (INDEXED-RETURN-SORTED, module-wide); thread.Parallelize records ctx.Err() whenever it stops dispatching (CTX-ERR-RECORDED).",
+ "C03": " Round 6: a helper comparing two of its parameters does so before any success return (COMPARE-FIRST); reservation exemptions consult Reserved… accessors only (RESERVED-MEANS-RESERVED).",
+ "C04": " Round 6: COMPARE-FIRST; a WIRE handler reads no attribute its WIRE_JSON sibling ignores (WIRE-SIBLINGS-AGREE, one reviewed exception).",
+ "C05": " Round 6: the snake-case converters return only what the normalising routine produced (CASE-ALWAYS-NORMALISED).",
+ "C06": " Round 6: the annotation filter's predicate keeps no state (ANNOTATION-JUDGED-ALONE); the replace-deprecated passes run unconditionally (UNDEPRECATE-UNGATED); G-INPLACE-FILTER-PARAM, G-MAP-ALIAS-MUTATED.",
+ "C07": " Round 6: a has-comment question about a statement looks at every token member of the node (HAS-COMMENT-COVERS-TOKENS).",
+ "C08": " Round 6: what is stored into a member named sorted… was sorted by the storing function (SORTED-FIELD-SORTED); digest computation touches no package-level state (DIGEST-STATELESS).",
+ "C09": " Round 6: CTX-ERR-RECORDED; G-MEMO-DROPS-RESULT; a store's Put… method puts every element it was handed (PUT-ALL-GIVEN).",
+ "C10": " Round 6: PATHS-BY-COMPONENT shared; a graph builder decides about AddNode before any success return (NODE-ALWAYS-CONSIDERED); the proto file tracker asks no kind of what it tracks (TRACKER-TRACKS-ALL).",
+ "C11": " Round 6: an image assembled by the recursive import walk is returned only from that walk (CLOSURE-ALWAYS-WALKED); bootstrapResolver always returns a resolver built from all files; PATHS-BY-COMPONENT shared.",
+ "C12": " Round 6: an import is recorded only when the element can no longer turn out excluded (IMPORT-AFTER-SURVIVAL); the exclude-only filter passes over a file only because it is an import or excluded (KEPT-UNLESS-EXCLUDED); include and exclude resolve a package name alike (PACKAGE-MEANS-PACKAGE).",
+ "C13": " Round 6: a mapped view refuses its own root (VIEW-ROOT-REFUSED); list validators validate each element the range yields (LIST-VALIDATOR-TOTAL); OS paths are never related by string prefix (PATH-PREFIX-BY-STRING); Normalize returns only what Clean produced (CLEAN-ALWAYS).",
+ "C14": " Round 6: the disk bucket validates before it opens (DISK-VALIDATE-FIRST); CLEAN-ALWAYS and PATH-PREFIX-BY-STRING shared.",
+ "C15": " Round 6: PUT-ALL-GIVEN; archive readers extract sequentially (ARCHIVE-LAST-WINS); CTX-ERR-RECORDED.",
+ "C16": " Round 6: re-basing lint/breaking paths drops a path only because it lies outside the module (REBASE-KEEPS-ALL); a remote plugin's name is its whole reference (PLUGIN-NAME-WHOLE-REF).",
+ "C17": " Round 6: CLOSURE-ALWAYS-WALKED; per-directory images are selected by the directory's file list (BY-DIR-BY-FILES).",
+ "C18": " Round 6: the suffix override is applied whether or not there is a prefix (PREFIX-SUFFIX-INDEPENDENT); the sweeper's passes run to the end of the list (SWEEP-SCANS-ALL).",
+ "C19": " Round 6: the transport sets no redirect policy of its own and copies no headers in bulk (HEADER-WRITER); one netrc file is consulted (NETRC-LOOKUP).",
+ "C20": " Round 6: annotation accessors return the stored member unchanged (ACCESSORS-PLAIN); the differ compares the bytes as read (DIFF-RAW-BYTES); position components are clamped independently (POSITION-CLAMPED).",
+}
+for _k, _v in _ROUND6.items():
+    if _k in TEXTS and _v.strip() not in TEXTS[_k]["text"]:
+        TEXTS[_k]["text"] = TEXTS[_k]["text"].rstrip() + _v
+
 # ---- the generic pack (rules G-…), run for every property over the packages it is anchored in ------------------------
-_GENERIC = " Generic shape rules over the anchored packages (G-FLAGLOOP, G-LOOP-ACCUM, G-ONCE-RESULT-LOST, G-ARGMAX, G-DELEGATE-ERR, G-ERRSEEN, G-STALE-ERR, G-ERRLOOP, G-SORTED-INVARIANT, G-PARALLEL-ERR-WHOLE, G-WRITE-SWALLOW, G-RANGE-KEY-AS-ELEMENT, G-MAP-APPEND-KEY, G-TRIM-CUTSET, G-FIRST-DECIDES, G-FORMAT-DATA, G-NIL-ELEMENT-BREAK, G-WALK-CUT, G-MARK-BEFORE-STATE-TEST, G-ERR-PATH-UNSEEN, G-COMPARATOR-BOTH, G-CTOR-KEEPS-PARAM, G-WITH-FLAG-NOOP, G-TWIN-PARAM-UNUSED, G-DEFER-KEEPS-ERR, G-SELF-OPERANDS, G-PURE-RESULT-DROPPED, G-LOCK-KIND-PAIRED, G-DERIVED-KEY-STORE; DESIGN 3.1): zero instances expected, each with positive and negative examples in the self-test or among the stored seeds."
+_GENERIC = " Generic shape rules over the anchored packages (G-FLAGLOOP, G-LOOP-ACCUM, G-ONCE-RESULT-LOST, G-ARGMAX, G-DELEGATE-ERR, G-ERRSEEN, G-STALE-ERR, G-ERRLOOP, G-SORTED-INVARIANT, G-PARALLEL-ERR-WHOLE, G-WRITE-SWALLOW, G-RANGE-KEY-AS-ELEMENT, G-MAP-APPEND-KEY, G-TRIM-CUTSET, G-FIRST-DECIDES, G-FORMAT-DATA, G-NIL-ELEMENT-BREAK, G-WALK-CUT, G-MARK-BEFORE-STATE-TEST, G-ERR-PATH-UNSEEN, G-COMPARATOR-BOTH, G-CTOR-KEEPS-PARAM, G-WITH-FLAG-NOOP, G-TWIN-PARAM-UNUSED, G-DEFER-KEEPS-ERR, G-SELF-OPERANDS, G-PURE-RESULT-DROPPED, G-LOCK-KIND-PAIRED, G-DERIVED-KEY-STORE, G-INPLACE-FILTER-PARAM, G-INDEXED-RETURN-SORTED, G-MEMO-DROPS-RESULT, G-MAP-ALIAS-MUTATED; DESIGN 3.1): zero instances expected, each with positive and negative examples in the self-test or among the stored seeds."
 for _k in TEXTS:
     if _GENERIC.strip() not in TEXTS[_k]["text"]:
         TEXTS[_k]["text"] = TEXTS[_k]["text"].rstrip() + _GENERIC
